@@ -34,7 +34,7 @@ VARIABLE g    \* [stm, wtime, btime, winc, binc, order]
 \* increments RELATIVE to the clock they belong to: just below / at / above it, and around the share of the
 \* clock a per-move allocation typically hands out (an allocation that is sound for small increments can
 \* still reach the whole clock when the increment is a little below it)
-Near(t) == {x \in {t - 1, t + 1, t - 100, (t * 24) \div 25, (t * 49) \div 50, (t * 97) \div 100, t \div 2} : x >= 0}
+Near(t) == {x \in {t - 1, t + 1, t - 100, t - (t \div 25), t - (t \div 50), t - ((t \div 100) * 3), t \div 2} : x >= 0}
 GridInit == /\ g \in [stm : {"w", "b"}, wtime : Times, btime : Times, winc : Incs, binc : Incs, order : SubOrders]
                   \cup UNION {[stm : {"w"}, wtime : {t}, btime : {0, 60000}, winc : Near(t), binc : {0, 1000}, order : SubOrders] : t \in Times}
                   \cup UNION {[stm : {"b"}, btime : {t}, wtime : {0, 60000}, binc : Near(t), winc : {0, 1000}, order : SubOrders] : t \in Times}
